@@ -135,15 +135,18 @@ let handle (toks : string list) (impl : string list) : string * string =
        let topup = if asset_branch && not pure_made then model_last_admitted cfg (rq false) req l0 fee packs else None in
        let m = (match model_outs with
            | Ok outs ->
-             (match build_guard cfg fulln with
+             (* the size build() measures: inputs 0..nin-1 of one key address (one mock vkey witness), the final outputs, the final fee *)
+             let mfull = full_tx_size { t_inputs = List.init nin (fun i -> n_of_int i); t_outputs = outs; t_fee = fee;
+                                        t_vkeys = n_of_int 1; t_boots = [] } in
+             (match build_guard cfg mfull with
               | Ok _ ->
                 let b = Buffer.create 256 in
-                Buffer.add_string b (Printf.sprintf "ok %s %s %s %d %d" (sn l0) (sn fee) full nreq (List.length outs));
+                Buffer.add_string b (Printf.sprintf "ok %s %s %s %d %d" (sn l0) (sn fee) (sn mfull) nreq (List.length outs));
                 List.iter (fun o -> Buffer.add_string b (Printf.sprintf " %s %s %s" (sn o.o_coin) (sn (out_size o)) (sn (out_value_size o)))) outs;
                 Buffer.add_string b " |";
                 List.iter (fun t -> Buffer.add_string b (" " ^ t)) tail;
                 Buffer.contents b
-              | _ -> "toobig " ^ full)
+              | _ -> "toobig " ^ sn mfull)
            | Err -> "err:change" | Panic -> "panic" | OutOfFuel -> "outoffuel") in
        (m, show_verdict (judge_build cfg observed fulln topup))
      | _ -> ("driver-unparsed", "fails:-"))
@@ -156,17 +159,21 @@ let handle (toks : string list) (impl : string list) : string * string =
     if next c <> "O" then failwith "O";
     let nout = int_ c in
     let req = rep nout (fun () -> p_out c) in
+    if next c <> "F" then failwith "F";
+    let fee = num c in
+    let shape v = { t_inputs = List.init nin (fun i -> n_of_int i); t_outputs = req; t_fee = fee; t_vkeys = n_of_int v; t_boots = [] } in
+    let mfull = full_tx_size (shape 1) and mlen = full_tx_size (shape 0) in   (* with the mock witness / as build_tx_unsafe returns it *)
     let admitted = (match add_outputs cfg [] req with Ok _ -> true | _ -> false) in
     (match impl with
      | [] -> ((if admitted then "admitted" else "err:addout"), "na")
      | ["err:addout"] -> ((if admitted then "admitted" else "err:addout"), "holds")
      | ["err:size"] -> ("skip err:size", "holds")
      | ["ok"; full; txlen] ->
-       let m = if not admitted then "err:addout" else (match build_guard cfg (nn full) with Ok _ -> "ok " ^ full ^ " " ^ txlen | _ -> "toobig " ^ full) in
+       let m = if not admitted then "err:addout" else (match build_guard cfg mfull with Ok _ -> "ok " ^ sn mfull ^ " " ^ sn mlen | _ -> "toobig " ^ sn mfull) in
        let big = if BZ.compare (BZ.of_string full) (BZ.of_string txlen) >= 0 then full else txlen in
        (m, show_verdict (judge_build cfg [] (nn big) None))
      | ["toobig"; full] ->
-       let m = if not admitted then "err:addout" else (match build_guard cfg (nn full) with Ok _ -> "ok " ^ full | _ -> "toobig " ^ full) in
+       let m = if not admitted then "err:addout" else (match build_guard cfg mfull with Ok _ -> "ok " ^ sn mfull ^ " " ^ sn mlen | _ -> "toobig " ^ sn mfull) in
        (m, "holds")
      | _ -> ("driver-unparsed", "fails:-"))
   | k -> failwith ("unknown case kind " ^ k)
